@@ -707,6 +707,26 @@ func Verif_C34x_QueryList() {
 		signers: [][2]int{{1, 1}}})
 }
 
+// Verif_C34_Callback: AuthCallback returning (nil, nil) falls back to config.Auth (all loop
+// obligations apply; methods [password, publickey(ed25519 AlgorithmSigner)], 3 replies);
+// AuthCallback returning (nil, err) aborts right after none: no configured method is attempted,
+// nothing but none is requested, and an error is returned unless none itself succeeded.
+func Verif_C34_Callback() {
+	mode := verifrt.Choose(2, 3)
+	w, err := c34Run(c34Params{k: 3, replies: c34Replies(0), qreplies: c34QReplies, auth: []int{1, 2},
+		signers: [][2]int{{1, 1}}, strict: true, callback: mode})
+	if mode == 3 {
+		verifrt.Reach("cb-error")
+		verifrt.Assert(w.attempts == 0, "no configured method is attempted when AuthCallback fails")
+		verifrt.Assert(w.authReqs == 1, "only none is requested when AuthCallback fails")
+		if !w.successSent {
+			verifrt.Assert(err != nil, "AuthCallback error aborts the authentication")
+		}
+	} else {
+		verifrt.Reach("cb-nil")
+	}
+}
+
 // Verif_C34_Bound: a server that answers every request with a partial success listing password
 // (or, second script, with plain failures while an AuthCallback keeps supplying the password
 // method): the client gives up with an error after maxAuthClientTried attempts. 70 replies.
